@@ -469,15 +469,21 @@ impl ApplicationHeader {
                 // Only parse delivery_monitoring if explicitly present
                 let delivery_monitoring = if block2.len() >= 18 {
                     let monitoring = &block2[17..18];
-                    // Only set if it's a valid monitoring code (not a space or other character)
-                    if monitoring
+                    // A header with anything else in this position (a space, punctuation) is
+                    // rejected: reading it as "no monitoring" would drop the character, and the
+                    // obsolescence period after it, when the header is written back
+                    if !monitoring
                         .chars()
                         .all(|c| c.is_ascii_alphabetic() || c.is_ascii_digit())
                     {
-                        Some(monitoring.to_string())
-                    } else {
-                        None
+                        return Err(ParseError::InvalidBlockStructure {
+                            block: "2".to_string(),
+                            message: format!(
+                                "Input Block 2 delivery monitoring must be a letter or digit, got '{monitoring}'"
+                            ),
+                        });
                     }
+                    Some(monitoring.to_string())
                 } else {
                     None
                 };
